@@ -42,16 +42,13 @@ func dtlcpScript(s scen) (string, string) {
 		err = srv.Handshake()
 	}()
 
-	sig, enc := st.CliSig, st.CliEnc
-	if s.cli == "s-untrusted-nocv" {
-		sig, enc = st.CliOthSig, st.CliOthEnc
-	}
+	pl := scriptPlanOf(s.cli)
 	ccfg := &dtlcp.Config{
-		Certificates: []dtlcp.Certificate{pair.DCert(sig), pair.DCert(enc)},
+		Certificates: []dtlcp.Certificate{pair.DCert(pl.sig), pair.DCert(pl.enc)},
 		CipherSuites: []uint16{suiteID(s.suite)}, Time: pki.NowFn, RootCAs: st.Root.Pool,
 	}
 	sc := dtlcp.NewVerifScript("client", ce, se.LocalAddr(), ccfg)
-	cvBits, finOK := "11", true
+	cvBits, finOK := pl.cvBits, pl.finOK
 
 	// everything the script does runs under a watchdog: closing the pipe unblocks it
 	fin := make(chan struct{})
@@ -75,46 +72,15 @@ func dtlcpScript(s scen) (string, string) {
 				break
 			}
 		}
-		req := sc.CertRequested
-		sendCert, certOpts, sendCV := req, (*dtlcp.VerifSendOpts)(nil), req
-		var cvOpts *dtlcp.VerifSendOpts
-		switch s.cli {
-		case "s-good":
-		case "s-nocv", "s-untrusted-nocv":
-			sendCV = false
-		case "s-cvotherkey":
-			cvOpts = &dtlcp.VerifSendOpts{SignKey: st.OtherSig.Key}
-			cvBits = "01"
-		case "s-cvothertr":
-			cvOpts = &dtlcp.VerifSendOpts{Body: signOther(sig.Key)}
-			cvBits = "10"
-		case "s-cvnocert":
+		sendCert, sendCV := pl.decide(sc.CertRequested)
+		var certOpts, cvOpts *dtlcp.VerifSendOpts
+		if pl.emptyCerts {
 			certOpts = &dtlcp.VerifSendOpts{EmptyCerts: true}
-			sendCV = true
-			cvBits = "01"
-		case "s-cvnomsg":
-			sendCert, sendCV = false, true
-			cvBits = "01"
-		case "s-unreq":
-			sendCert, sendCV = true, true
-		case "s-nomsg":
-			sendCert, sendCV = false, false
-		case "s-onecert-nocv":
-			certOpts = &dtlcp.VerifSendOpts{Certificates: [][]byte{sig.DER}}
-			sendCV = false
-		case "s-onecert":
-			certOpts = &dtlcp.VerifSendOpts{Certificates: [][]byte{sig.DER}}
-		case "s-edsig":
-			certOpts = &dtlcp.VerifSendOpts{Certificates: [][]byte{st.EdSig.DER, enc.DER}}
-			cvBits = "01"
-		case "s-garbage":
-			certOpts = &dtlcp.VerifSendOpts{Certificates: [][]byte{{0x30, 0x03, 0x01, 0x01, 0xff}, enc.DER}}
-			cvBits = "01"
-		case "s-badfin":
-			finOK = false
-		case "s-empty":
-			certOpts = &dtlcp.VerifSendOpts{EmptyCerts: true}
-			sendCV = false
+		} else if pl.certs != nil {
+			certOpts = &dtlcp.VerifSendOpts{Certificates: pl.certs}
+		}
+		if pl.cvKey != nil {
+			cvOpts = &dtlcp.VerifSendOpts{SignKey: pl.cvKey}
 		}
 		if sendCert {
 			if sc.Send("Certificate", certOpts) != nil {
@@ -125,6 +91,9 @@ func dtlcpScript(s scen) (string, string) {
 			return
 		}
 		if sendCV {
+			if pl.cvBody != nil {
+				cvOpts = &dtlcp.VerifSendOpts{Body: pl.cvBody(transcriptHash(sc.Transcript()))}
+			}
 			if sc.Send("CertificateVerify", cvOpts) != nil {
 				return
 			}
